@@ -219,19 +219,9 @@ Definition mismatches_C11 (cs : list case_C11) : list N := indices_where mismatc
 Definition violations_C11 (cs : list case_C11) : list N := indices_where violation_C11 cs.
 
 (* known-finding classifier over the INPUT (scenario + probe); idx*100 + tag *)
-(* tag 1: Project.clone — a fault while copying any entry other than the state point file (or on the
-   destination's own mkdir) leaves a destination that validates but is incomplete *)
-Definition known_tag_C11 (c : case_C11) : N :=
-  let hit (ws : path) (i : str) (s : csig) : bool :=
-    let d := dst_dir (frepr_of c) (k_op c) (k_pre c) in
-    negb (str_eqb (last (sg_p s) []) SPF)
-    && negb (ckind_eqb (sg_kind s) SgMkdir && path_eqb (sg_p s) d)
-    && (under d (sg_p s) || under (ws ++ [i]) (sg_p s)) in
-  match k_op c, k_probe c with
-  | KClone ws i dws, PFault s _ _ (Some _) _ => if hit ws i s then 1 else 0
-  | KClone ws i dws, PFault2 s1 _ _ s2 _ _ (Some _) _ => if hit ws i s1 || hit ws i s2 then 1 else 0
-  | _, _ => 0
-  end%N.
+(* no open finding at present (Project.clone leaving a partial copy was repaired in /repo: 3bc075e);
+   the classifier stays so that a future finding can be added without touching the driver *)
+Definition known_tag_C11 (c : case_C11) : N := 0%N.
 
 Fixpoint known_aux_C11 (cs : list case_C11) (i : N) : list N :=
   match cs with
